@@ -341,6 +341,20 @@ def numeric(rng, tier):
         if float(((Hh @ out).matrix() - o2.matrix()).abs().max()) > 1e-8: fails.append(dict(clause='bspline_equivariance', signature=f'itv={itv}'))
         if m >= 5 and float((out.matrix()[kk] - pp.bspline(poses[1:], interval=itv).matrix()[0]).abs().max()) > 1e-8:
             fails.append(dict(clause='bspline_continuity', signature=f'itv={itv}'))
+        # bspline on GENERIC poses (consecutive relative twists do not commute): the curve is continuous across the knots - the step from the
+        # last sample of a segment to the first of the next is of the size of the steps inside the segments (interval 0.01)
+        gp = pp.randn_SE3(6, sigma=0.8, dtype=d)
+        go = pp.bspline(gp, interval=0.01).matrix(); evals += 1
+        gstep = (go[1:] - go[:-1]).abs().amax((-1, -2))
+        kg = 100
+        knots = [j * kg - 1 for j in range(1, (go.shape[0] - 1) // kg)]           # step index from u = 0.99 of segment j-1 to u = 0 of segment j
+        inner = torch.ones_like(gstep, dtype=torch.bool); inner[knots] = False
+        if knots and float(gstep[knots].max()) > 3 * float(gstep[inner].max()) + 1e-9:
+            fails.append(dict(clause='bspline_continuous_across_segments', signature='generic poses, interval 0.01', jump=float(gstep[knots].max()), inner_step=float(gstep[inner].max())))
+        # ... and equivariant under left multiplication (generic poses)
+        Hg = pp.randn_SE3(dtype=d)
+        if float(((Hg @ pp.bspline(gp, interval=0.25)).matrix() - pp.bspline(Hg @ gp, interval=0.25).matrix()).abs().max()) > 1e-8:
+            fails.append(dict(clause='bspline_equivariance', signature='generic poses'))
         # chspline: sample count and interpolation for float intervals
         pts = torch.randn(rng.randrange(2, 20), 3, dtype=d)
         o = pp.chspline(pts, interval=itv); evals += 1
